@@ -159,31 +159,58 @@ def _edge_sets(body, s, key):
 
 
 def _stored_bool_edges(body, s):
-    """switch on a boolean that was stored by constant assignments (`matches!`, `a && b`): {label: [blocks that assign the value this edge tests]}"""
-    from . import guards
+    """switch on a stored boolean (`matches!`, `a && b`, `let is_x = match .. { .. => cond, _ => false }`): {label: [blocks whose definition can
+    give the boolean the value this edge tests]} - constant assignments of that value, and predicate calls / comparisons (either value)"""
     t = body.blocks[s]["term"]
+    src = paths.switch_source(body, t)
+    if src is None or src[0] not in ("local", "rv"):
+        return {}
     d = t["discr"]
     if "p" not in d or d["p"]["proj"]:
         return {}
-    l = d["p"]["l"]
-    if l >= len(body.locals) or body.locals[l] != "bool":
+    l = src[1] if src[0] == "local" else d["p"]["l"]
+    pol = src[2] if src[0] == "local" else True
+    if not isinstance(l, int) or l >= len(body.locals) or body.locals[l] != "bool":
         return {}
-    for _ in range(4):
-        df = flow.single_def(body, l)
-        if df and df["kind"] == "assign" and df["rv"]["k"] == "use" and "p" in df["rv"]["ops"][0] and not df["rv"]["ops"][0]["p"]["proj"]:
-            l = df["rv"]["ops"][0]["p"]["l"]
-        else:
-            break
-    assigns = guards._const_bool_assigns(body, l)
-    if not assigns:
-        return {}
-    vals = paths.bool_values(t, True)
+    vals = paths.bool_values(t, pol)
     out = {}
     for lab, _ in body.succ_edges(s):
-        v = vals.get(lab)
-        if v is None:
+        want = vals.get(lab)
+        if want is None:
             continue
-        out[lab] = [bi for bi, val in assigns if val == v]
+        blocks = []
+        ok = True
+        stack = [(l, 0)]
+        seen = set()
+        while stack and ok:
+            l2, dep = stack.pop()
+            if l2 in seen:
+                continue
+            seen.add(l2)
+            for df in body.defs().get(l2, []):
+                if df["kind"] == "mutarg" or df.get("proj"):
+                    ok = False
+                    break
+                if df["kind"] == "assign":
+                    rv = df["rv"]
+                    o0 = rv["ops"][0] if rv.get("ops") else None
+                    if rv["k"] == "use" and isinstance(o0, dict) and o0.get("c") == "int" and o0.get("ty") == "bool":
+                        if (o0["v"] == "1") == want:
+                            blocks.append(df["bi"])
+                    elif rv["k"] == "use" and isinstance(o0, dict) and "p" in o0 and not o0["p"]["proj"] and dep < 4:
+                        stack.append((o0["p"]["l"], dep + 1))
+                    elif rv["k"] == "bin":
+                        blocks.append(df["bi"])
+                    else:
+                        ok = False
+                        break
+                elif df["kind"] == "call":
+                    blocks.append(df["bi"])
+                else:
+                    ok = False
+                    break
+        if ok and blocks:
+            out[lab] = blocks
     return out
 
 
